@@ -237,7 +237,38 @@ func Parse(kind string, a []string) (Case, error) {
 
 const B64Text = "dmVyaWY=" // a valid base64 reply text ("verif")
 
+// WriteStall parses a write-stall decision: ws:<n> / wf:<n> (the client may write n more bytes, then its writes block
+// until the write deadline / fail; the message gets a large body so that the content does not fit into the bufio
+// buffer), wsl / wfl (short message: nothing is written before the final flush in dataCloser.Close; n = 10)
+func WriteStall(s string) (n int, fail, late bool) {
+	fail = strings.HasPrefix(s, "wf")
+	if i := strings.IndexByte(s, ':'); i >= 0 {
+		n, _ = strconv.Atoi(s[i+1:])
+		return n, fail, false
+	}
+	return 10, fail, true
+}
+
+// BigBody: the case needs a message whose content is written to the transport before the final flush
+func (c Case) BigBody() bool {
+	for _, s := range c.Script {
+		if (strings.HasPrefix(s, "ws:") || strings.HasPrefix(s, "wf:")) && !strings.HasSuffix(s, "l") {
+			return true
+		}
+	}
+	return false
+}
+
 func decision(s string) smtpx.Decision {
+	if strings.HasPrefix(s, "ws") || strings.HasPrefix(s, "wf") {
+		// DATA position: 354, then the server stops reading (see WriteStall)
+		n, fail, _ := WriteStall(s)
+		kind := "stallwrite"
+		if fail {
+			kind = "failwrite"
+		}
+		return smtpx.Decision{Kind: kind, Code: n}
+	}
 	switch s {
 	case "ok":
 		return smtpx.OK()
@@ -411,10 +442,27 @@ func Classify(err error) string {
 		return "eof"
 	case errors.Is(err, os.ErrDeadlineExceeded), errors.Is(err, context.DeadlineExceeded), errors.As(err, &ne) && ne.Timeout():
 		return "timeout"
-	case errors.Is(err, io.ErrClosedPipe), errors.Is(err, net.ErrClosed):
+	case errors.Is(err, io.ErrClosedPipe), errors.Is(err, net.ErrClosed), errors.Is(err, syscall.EPIPE):
 		return "write"
 	}
 	return "other:" + strings.ReplaceAll(msg, " ", "_")
+}
+
+var bigBody = strings.Repeat("The quick brown fox jumps over the lazy dog. 0123456789 abcdefghijklmnopqrstuvwxyz\r\n", 4000) // ~ 330 KB
+
+func newMsgSized(nrcpt int, big bool) *mail.Msg {
+	m := newMsg(nrcpt)
+	if big {
+		m.SetBodyString(mail.TypeTextPlain, bigBody)
+	}
+	return m
+}
+
+// newMsgHuge: a body larger than the loopback socket buffers (~ 16 MB)
+func newMsgHuge(nrcpt int) *mail.Msg {
+	m := newMsg(nrcpt)
+	m.SetBodyString(mail.TypeTextPlain, strings.Repeat(bigBody, 48))
+	return m
 }
 
 func newMsg(nrcpt int) *mail.Msg {
@@ -539,6 +587,8 @@ func RunWith(c Case, p *PKI, timeout time.Duration, build func(transport ...mail
 	var ln net.Listener
 	fallbackPort := 0
 	if c.Net() {
+		// real sockets: "the server stops reading" = the server goroutine blocks until the case is over
+		srv.OnWriteStall = func(int, bool) { <-release }
 		srv.ImplicitTLS = c.SSL && c.HS != "plain"
 		var err error
 		addr := c.Host
@@ -607,6 +657,7 @@ func RunWith(c Case, p *PKI, timeout time.Duration, build func(transport ...mail
 			}
 			cl, sv := smtpx.NewPair()
 			memClient = cl
+			srv.OnWriteStall = func(n int, fail bool) { cl.LimitWrites(n, fail) }
 			rawMu.Lock()
 			rawConn = sv
 			rawMu.Unlock()
@@ -641,7 +692,10 @@ func RunWith(c Case, p *PKI, timeout time.Duration, build func(transport ...mail
 	}
 	msgs := make([]*mail.Msg, len(c.Msgs))
 	for i, n := range c.Msgs {
-		msgs[i] = newMsg(n)
+		msgs[i] = newMsgSized(n, c.BigBody())
+		if c.BigBody() && c.Net() {
+			msgs[i] = newMsgHuge(n)
+		}
 	}
 
 	type outcome struct {
@@ -707,7 +761,7 @@ func RunWith(c Case, p *PKI, timeout time.Duration, build func(transport ...mail
 				if i > 0 {
 					ms = make([]*mail.Msg, len(c.Msgs))
 					for j, n := range c.Msgs {
-						ms[j] = newMsg(n)
+						ms[j] = newMsgSized(n, c.BigBody())
 					}
 				}
 				var e1 error
@@ -842,21 +896,29 @@ func RunWith(c Case, p *PKI, timeout time.Duration, build func(transport ...mail
 	}
 
 	if memClient != nil {
-		set, tlsPhase, freshDL := false, false, false
+		set, tlsPhase, freshDL, tlsWriteDL := false, false, false, false
 		var clear strings.Builder
 		anyA, anyU := false, false
 		for _, op := range memClient.Ops() {
 			switch op.Kind {
 			case 'D':
 				if op.Dir == 'W' {
-					continue // a write deadline (crypto/tls sets one around its close_notify alert): reads are not affected
+					// a write deadline of its own (crypto/tls sets 5 s around its close_notify alert): reads are not
+					// affected, and a write that waits it out is not a period of the configured timeout
+					tlsWriteDL = !op.Zero
+					continue
 				}
+				tlsWriteDL = false
 				set = !op.Zero
 				if set {
 					o.Arms++
 					freshDL = true
 				}
 			case 'W':
+				if op.Err == "timeout" && freshDL && !tlsWriteDL {
+					o.Spent++ // a write that waited out the deadline
+					freshDL = false
+				}
 				if op.Err == "" && !tlsPhase {
 					if len(op.Data) >= 2 && op.Data[0] == 0x16 && op.Data[1] == 0x03 {
 						tlsPhase = true
